@@ -2100,34 +2100,38 @@ class StridedInterval:
 
     @reversed_processor
     def lshift(self, shift_amount: StridedInterval) -> StridedInterval:
+        if self.is_empty:
+            return self
+
         lower, upper = self._get_shift_range(shift_amount)
 
-        # Shift the lower_bound and upper_bound by all possible amounts, and
-        # get min/max values from all the resulting values
-
-        new_lower_bound = None
-        new_upper_bound = None
+        # Shift every piece that does not wrap around 2**bits by every possible amount and join the results
+        results = []
         for amount in range(lower, upper + 1):
-            lower_shifted = self.lower_bound << amount
-            if new_lower_bound is None or lower_shifted < new_lower_bound:
-                new_lower_bound = lower_shifted
-            upper_shifted = self.upper_bound << amount
-            if new_upper_bound is None or upper_shifted > new_upper_bound:
-                new_upper_bound = upper_shifted
+            for piece in self._ssplit():
+                if piece.lower_bound > piece.upper_bound:
+                    # the piece beyond the south pole begins after the upper bound: it holds no member
+                    continue
+                results.append(piece._lshift(amount))
 
-        # NOTE: If this is an arithmetic operation, we should take care
-        # of sign-changes.
-
-        ret = StridedInterval(
-            bits=self.bits,
-            stride=max(self.stride << lower, 1),
-            lower_bound=new_lower_bound,
-            upper_bound=new_upper_bound,
-            uninitialized=self.uninitialized,
-        )
-        ret.normalize()
-
+        ret = StridedInterval.least_upper_bound(*results).normalize()
+        ret.uninitialized = self.uninitialized
         return ret
+
+    def _lshift(self, shift_amount: int) -> StridedInterval:
+        """
+        Left shift of an interval that does not wrap around 2**bits, with a concrete shift amount
+        """
+        lower = self.lower_bound << shift_amount
+        upper = self.upper_bound << shift_amount
+        stride = self.stride << shift_amount
+        if upper < 2**self.bits:
+            return StridedInterval(bits=self.bits, stride=stride, lower_bound=lower, upper_bound=upper)
+        # bits are shifted out: every result is still lower + k * stride modulo 2**bits, hence congruent to lower modulo
+        # the common divisor of the stride and 2**bits
+        g = math.gcd(stride, 2**self.bits)
+        offset = lower % g
+        return StridedInterval(bits=self.bits, stride=g, lower_bound=offset, upper_bound=2**self.bits - g + offset)
 
     @reversed_processor
     def cast_low(self, tok: int) -> StridedInterval:
